@@ -15,6 +15,7 @@ Two small state machines are modelled as well: clamps/links on the optimiser's g
 import CBV.Model.Common
 import CBV.Gen.Tables
 import CBV.Model.C20Syntax
+import CBV.Gen.TC20
 
 namespace CBV.C20
 
